@@ -345,6 +345,39 @@ func (f *fileInstr) tickCalls(s ast.Stmt) {
 			}
 		}
 	}
+	// pure: an expression whose evaluation ahead of the statement has no side effect and that does not use a
+	// name the statement itself declares
+	var pure func(e ast.Expr) bool
+	pure = func(e ast.Expr) bool {
+		switch v := e.(type) {
+		case *ast.Ident:
+			return !declared[v.Name] && v.Name != "_"
+		case *ast.BasicLit:
+			return true
+		case *ast.SelectorExpr:
+			return pure(v.X)
+		case *ast.ParenExpr:
+			return pure(v.X)
+		case *ast.StarExpr:
+			return pure(v.X)
+		case *ast.BinaryExpr:
+			return pure(v.X) && pure(v.Y)
+		case *ast.UnaryExpr:
+			return (v.Op == token.SUB || v.Op == token.ADD || v.Op == token.XOR) && pure(v.X)
+		case *ast.IndexExpr:
+			return pure(v.X) && pure(v.Index)
+		case *ast.CallExpr:
+			id, ok := v.Fun.(*ast.Ident)
+			if !ok || id.Obj != nil || len(v.Args) != 1 {
+				return false
+			}
+			switch id.Name {
+			case "len", "cap", "int", "int8", "int16", "int32", "int64", "uint", "uint8", "uint16", "uint32", "uint64", "byte":
+				return pure(v.Args[0])
+			}
+		}
+		return false
+	}
 	ast.Inspect(s, func(n ast.Node) bool {
 		switch v := n.(type) {
 		case *ast.BlockStmt:
@@ -352,6 +385,23 @@ func (f *fileInstr) tickCalls(s ast.Stmt) {
 		case *ast.FuncLit:
 			return false
 		case *ast.CallExpr:
+			// declared-size allocations: make(T, n[, c]) and x.Grow(n) with a side-effect-free size expression
+			if id, ok := v.Fun.(*ast.Ident); ok && id.Name == "make" && id.Obj == nil && len(v.Args) >= 2 {
+				if sz := v.Args[len(v.Args)-1]; pure(sz) {
+					f.insert(s.Pos(), fmt.Sprintf("vstep.Alloc(int64(%s)); ", f.text(sz)))
+					f.sites["R6.alloc"]++
+					f.need["vstep"] = true
+				} else {
+					f.sites["R6.alloc-skipped"]++
+				}
+				return true
+			}
+			if se, ok := v.Fun.(*ast.SelectorExpr); ok && se.Sel.Name == "Grow" && len(v.Args) == 1 && pure(v.Args[0]) {
+				f.insert(s.Pos(), fmt.Sprintf("vstep.Alloc(int64(%s)); ", f.text(v.Args[0])))
+				f.sites["R6.alloc"]++
+				f.need["vstep"] = true
+				return true
+			}
 			if len(v.Args) == 0 || !simple(v.Args[0]) {
 				return true
 			}
